@@ -488,4 +488,830 @@ theorem entry_complete_aux (T : TablesOK) (W : World) (p : Pat) (σ : State) :
     rw [norm_nil] at hu
     exact absurd hu T.no_empty
 
+/-! ## more inversion lemmas -/
+
+theorem matchP_bind_some (W : World) (n : String) (q : Pat) (t : Tree) (σ : State) (r : Tree × State)
+    (h : matchP W (.bind n q) t σ = some r) : ∃ r', matchP W q t σ = some r' := by
+  simp only [matchP] at h
+  cases hl : List.lookup n σ with
+  | some v => rw [hl] at h; simp at h
+  | none =>
+    rw [hl] at h
+    simp only at h
+    cases hm : matchP W q t σ with
+    | none => rw [hm] at h; simp at h
+    | some r' => exact ⟨r', rfl⟩
+
+theorem matchP_lcons_some (W : World) (a b : Pat) (t : Tree) (σ : State) (r : Tree × State)
+    (ha : isNilp a = false) (h : matchP W (.lcons a b) t σ = some r) :
+    ∃ x xs r1 r2, strip t = .list (x :: xs) ∧ matchP W a x σ = some r1 ∧
+      matchP W b (.list xs) r1.2 = some r2 := by
+  simp only [matchP, ha] at h
+  cases hs : strip t with
+  | list es =>
+    rw [hs] at h
+    simp only at h
+    match es, h with
+    | [], h => simp at h
+    | x :: xs, h =>
+      simp only [Bool.false_eq_true, if_false] at h
+      cases h1 : matchP W a x σ with
+      | none => rw [h1] at h; simp at h
+      | some r1 =>
+        rw [h1] at h
+        simp only at h
+        cases h2 : matchP W b (.list xs) r1.2 with
+        | none => rw [h2] at h; simp at h
+        | some r2 => exact ⟨x, xs, r1, r2, rfl, h1, h2⟩
+  | node k o fs => rw [hs] at h; simp at h
+  | paren k x => rw [hs] at h; simp at h
+  | block fl es => rw [hs] at h; simp at h
+  | str s => rw [hs] at h; simp at h
+  | nil => rw [hs] at h; simp at h
+
+theorem matchP_builtin_some (W : World) (nm : Pat) (t : Tree) (σ : State) (r : Tree × State)
+    (h : matchP W (.builtin nm) t σ = some r) :
+    ∃ o name r', peel t = .node "Ident" o [name] ∧ matchP W nm name σ = some r' := by
+  simp only [matchP] at h
+  cases hp : peel t with
+  | node k o fs =>
+    rw [hp] at h
+    match fs, h with
+    | [name], h =>
+      simp only at h
+      by_cases hk : k = "Ident"
+      · rw [if_pos hk] at h
+        cases hm : matchP W nm name σ with
+        | none => rw [hm] at h; simp at h
+        | some r' => exact ⟨o, name, r', by rw [hk], hm⟩
+      · rw [if_neg hk] at h; simp at h
+    | [], h => simp at h
+    | _ :: _ :: _, h => simp at h
+  | paren k x => rw [hp] at h; simp at h
+  | block fl es => rw [hp] at h; simp at h
+  | list es => rw [hp] at h; simp at h
+  | str s => rw [hp] at h; simp at h
+  | nil => rw [hp] at h; simp at h
+
+theorem matchP_object_some (W : World) (nm : Pat) (t : Tree) (σ : State) (r : Tree × State)
+    (h : matchP W (.object nm) t σ = some r) :
+    ∃ o name r', peel t = .node "Ident" o [name] ∧ matchP W nm name σ = some r' := by
+  simp only [matchP] at h
+  cases hp : peel t with
+  | node k o fs =>
+    rw [hp] at h
+    match fs, h with
+    | [name], h =>
+      simp only at h
+      by_cases hk : k = "Ident"
+      · rw [if_pos hk] at h
+        cases hm : matchP W nm name σ with
+        | none => rw [hm] at h; simp at h
+        | some r' => exact ⟨o, name, r', by rw [hk], hm⟩
+      · rw [if_neg hk] at h; simp at h
+    | [], h => simp at h
+    | _ :: _ :: _, h => simp at h
+  | paren k x => rw [hp] at h; simp at h
+  | block fl es => rw [hp] at h; simp at h
+  | list es => rw [hp] at h; simp at h
+  | str s => rw [hp] at h; simp at h
+  | nil => rw [hp] at h; simp at h
+
+theorem matchP_intLit_some (W : World) (v : Pat) (t : Tree) (σ : State) (r : Tree × State)
+    (h : matchP W (.intLit v) t σ = some r) : ∃ c r', matchP W v (.str c) σ = some r' := by
+  simp only [matchP] at h
+  cases hp : peel t with
+  | node k o fs =>
+    rw [hp] at h
+    simp only at h
+    by_cases hk : k = "BasicLit" ∨ k = "UnaryExpr"
+    · rw [if_pos hk] at h
+      cases hc : W.constVal (.node k o fs) with
+      | none => rw [hc] at h; simp at h
+      | some c =>
+        rw [hc] at h
+        simp only at h
+        cases hm : matchP W v (.str c) σ with
+        | none => rw [hm] at h; simp at h
+        | some r' => exact ⟨c, r', hm⟩
+    · rw [if_neg hk] at h; simp at h
+  | paren k x => rw [hp] at h; simp at h
+  | block fl es => rw [hp] at h; simp at h
+  | list es => rw [hp] at h; simp at h
+  | str s => rw [hp] at h; simp at h
+  | nil => rw [hp] at h; simp at h
+
+theorem matchP_tce_some (W : World) (v : Pat) (t : Tree) (σ : State) (r : Tree × State)
+    (h : matchP W (.tce v) t σ = some r) : ∃ c r', matchP W v (.str c) σ = some r' := by
+  simp only [matchP] at h
+  cases hp : strip t with
+  | node k o fs =>
+    rw [hp] at h
+    simp only at h
+    cases hc : W.constVal (.node k o fs) with
+    | none => rw [hc] at h; simp at h
+    | some c =>
+      rw [hc] at h
+      simp only at h
+      cases hm : matchP W v (.str c) σ with
+      | none => rw [hm] at h; simp at h
+      | some r' => exact ⟨c, r', hm⟩
+  | paren k x => rw [hp] at h; simp at h
+  | block fl es => rw [hp] at h; simp at h
+  | list es => rw [hp] at h; simp at h
+  | str s => rw [hp] at h; simp at h
+  | nil => rw [hp] at h; simp at h
+
+/-! ## evaluation of symbol formulas -/
+
+theorem evalAny_of_mem (idx : IndexSymbol → Bool) : ∀ (l : List SymPat) (c : SymPat),
+    c ∈ l → evalSym idx c = true → evalAny idx l = true
+  | [], _, h, _ => by simp at h
+  | x :: xs, c, h, hc => by
+    simp only [evalAny, Bool.or_eq_true]
+    rcases List.mem_cons.mp h with h | h
+    · left; rw [← h]; exact hc
+    · right; exact evalAny_of_mem idx xs c h hc
+
+theorem evalAny_exists (idx : IndexSymbol → Bool) : ∀ (l : List SymPat),
+    evalAny idx l = true → ∃ c ∈ l, evalSym idx c = true
+  | [], h => by simp [evalAny] at h
+  | x :: xs, h => by
+    simp only [evalAny, Bool.or_eq_true] at h
+    rcases h with h | h
+    · exact ⟨x, by simp, h⟩
+    · obtain ⟨c, hc, he⟩ := evalAny_exists idx xs h
+      exact ⟨c, by simp [hc], he⟩
+
+theorem evalAll_of_forall (idx : IndexSymbol → Bool) : ∀ (l : List SymPat),
+    (∀ c ∈ l, evalSym idx c = true) → evalAll idx l = true
+  | [], _ => by simp [evalAll]
+  | x :: xs, h => by
+    simp only [evalAll, Bool.and_eq_true]
+    exact ⟨h x (by simp), evalAll_of_forall idx xs (fun c hc => h c (by simp [hc]))⟩
+
+theorem evalAll_forall (idx : IndexSymbol → Bool) : ∀ (l : List SymPat),
+    evalAll idx l = true → ∀ c ∈ l, evalSym idx c = true
+  | [], _ => by simp
+  | x :: xs, h => by
+    simp only [evalAll, Bool.and_eq_true] at h
+    intro c hc
+    rcases List.mem_cons.mp hc with hc | hc
+    · rw [hc]; exact h.1
+    · exact evalAll_forall idx xs h.2 c hc
+
+/-- the `Or` case of collectSymbols keeps a satisfied alternative satisfied -/
+theorem orComb (idx : IndexSymbol → Bool) : ∀ (cs acc : List SymPat),
+    ((∃ c ∈ acc, evalSym idx c = true) ∨ (∃ c ∈ cs, evalSym idx c = true)) →
+    evalSym idx (orFinish (orFold acc cs)) = true
+  | [], acc, h => by
+    have hw : ∃ c ∈ acc, evalSym idx c = true := by
+      rcases h with h | h
+      · exact h
+      · obtain ⟨c, hc, _⟩ := h; simp at hc
+    obtain ⟨c, hc, he⟩ := hw
+    match acc, hc with
+    | [x], hc =>
+      simp only [orFold, orFinish]
+      simp at hc
+      rw [← hc]; exact he
+    | x :: y :: l, hc =>
+      simp only [orFold, orFinish, evalSym]
+      exact evalAny_of_mem idx _ c hc he
+  | c :: cs, acc, h => by
+    cases c with
+    | any => simp [orFold, orFinish, evalSym]
+    | none =>
+      simp only [orFold]
+      apply orComb idx cs acc
+      rcases h with h | h
+      · left; exact h
+      · obtain ⟨c', hc', he'⟩ := h
+        rcases List.mem_cons.mp hc' with hc' | hc'
+        · rw [hc'] at he'; simp [evalSym] at he'
+        · right; exact ⟨c', hc', he'⟩
+    | or l =>
+      simp only [orFold]
+      apply orComb idx cs (acc ++ l)
+      rcases h with h | h
+      · obtain ⟨c', hc', he'⟩ := h
+        left; exact ⟨c', by simp [hc'], he'⟩
+      · obtain ⟨c', hc', he'⟩ := h
+        rcases List.mem_cons.mp hc' with hc' | hc'
+        · rw [hc'] at he'
+          simp only [evalSym] at he'
+          obtain ⟨d, hd, hde⟩ := evalAny_exists idx l he'
+          left; exact ⟨d, by simp [hd], hde⟩
+        · right; exact ⟨c', hc', he'⟩
+    | sym s =>
+      simp only [orFold]
+      apply orComb idx cs (acc ++ [SymPat.sym s])
+      rcases h with h | h
+      · obtain ⟨c', hc', he'⟩ := h
+        left; exact ⟨c', by simp [hc'], he'⟩
+      · obtain ⟨c', hc', he'⟩ := h
+        rcases List.mem_cons.mp hc' with hc' | hc'
+        · left; exact ⟨c', by simp [hc'], he'⟩
+        · right; exact ⟨c', hc', he'⟩
+    | and l =>
+      simp only [orFold]
+      apply orComb idx cs (acc ++ [SymPat.and l])
+      rcases h with h | h
+      · obtain ⟨c', hc', he'⟩ := h
+        left; exact ⟨c', by simp [hc'], he'⟩
+      · obtain ⟨c', hc', he'⟩ := h
+        rcases List.mem_cons.mp hc' with hc' | hc'
+        · left; exact ⟨c', by simp [hc'], he'⟩
+        · right; exact ⟨c', hc', he'⟩
+
+theorem andAdd_all (idx : IndexSymbol → Bool) (acc : List SymPat) (c : SymPat)
+    (ha : ∀ x ∈ acc, evalSym idx x = true) (hc : evalSym idx c = true) :
+    ∀ x ∈ andAdd acc c, evalSym idx x = true := by
+  intro x hx
+  cases c with
+  | any => exact ha x (by simpa [andAdd] using hx)
+  | none => exact ha x (by simpa [andAdd] using hx)
+  | and l =>
+    simp only [andAdd, List.mem_append] at hx
+    rcases hx with hx | hx
+    · exact ha x hx
+    · simp only [evalSym] at hc
+      exact evalAll_forall idx l hc x hx
+  | sym s =>
+    simp only [andAdd, List.mem_append, List.mem_singleton] at hx
+    rcases hx with hx | hx
+    · exact ha x hx
+    · rw [hx]; exact hc
+  | or l =>
+    simp only [andAdd, List.mem_append, List.mem_singleton] at hx
+    rcases hx with hx | hx
+    · exact ha x hx
+    · rw [hx]; exact hc
+
+/-- the `And` of the children's formulas is satisfied if every child's formula is -/
+theorem andComb (idx : IndexSymbol → Bool) : ∀ (cs acc : List SymPat),
+    (∀ x ∈ acc, evalSym idx x = true) → (∀ c ∈ cs, evalSym idx c = true) →
+    evalSym idx (andFinish (cs.foldl andAdd acc)) = true
+  | [], acc, ha, _ => by
+    simp only [List.foldl]
+    match acc, ha with
+    | [], _ => simp [andFinish, evalSym]
+    | [x], ha => simpa [andFinish] using ha x (by simp)
+    | x :: y :: l, ha =>
+      simp only [andFinish, evalSym]
+      exact evalAll_of_forall idx _ ha
+  | c :: cs, acc, ha, hc => by
+    simp only [List.foldl]
+    apply andComb idx cs (andAdd acc c)
+    · exact andAdd_all idx acc c ha (hc c (by simp))
+    · intro c' hc'; exact hc c' (by simp [hc'])
+
+/-! ## symbols: a successful match references a satisfying set of the pattern's symbols -/
+
+/-- the index resolves the symbol -/
+def idxOf (W : World) : IndexSymbol → Bool := fun s => (W.lookup s).isSome
+
+/-- Where "the symbols named by the pattern are not declared in the analysed package" enters:
+every name under which Symbol.Match knows an object the package refers to is resolved by the
+package's type index, unless it is a universe-scope name (no package path).  The index holds
+the packages the analysed package imports or reaches through fields/methods, never the
+analysed package itself; alias chains that end in a package the analysed package does not
+import violate this (known finding alias-cross-package). -/
+def Visible (W : World) : Prop :=
+  ∀ o n, n ∈ W.names o → (symbolToIndexSymbol n).path ≠ "" →
+    (W.lookup (symbolToIndexSymbol n)).isSome = true
+
+/-- a name is "good" if CouldMatchAny accepts its IndexSymbol -/
+def goodName (W : World) (n : String) : Prop :=
+  evalSym (idxOf W) (.sym (symbolToIndexSymbol n)) = true
+
+theorem goodName_of_visible (W : World) (hv : Visible W) (o : Nat) (n : String)
+    (hn : n ∈ W.names o) : goodName W n := by
+  unfold goodName
+  simp only [evalSym]
+  by_cases hp : (symbolToIndexSymbol n).path = ""
+  · simp [hp]
+  · simp only [hp, if_false]
+    exact hv o n hn hp
+
+mutual
+/-- patterns whose List nodes have a head: `(List nil tail)` matches the empty list without
+looking at `tail`, while collectSymbols still demands the symbols of `tail` (an illogical
+pattern; outside the theorem) -/
+def sane : Pat → Bool
+  | .bind _ p => sane p
+  | .or ps => saneL ps
+  | .not p => sane p
+  | .lcons h t => !isNilp h && sane h && sane t
+  | .symbol nm => sane nm
+  | .builtin nm => sane nm
+  | .object nm => sane nm
+  | .intLit v => sane v
+  | .tce v => sane v
+  | .node _ fs => saneL fs
+  | _ => true
+def saneL : List Pat → Bool
+  | [] => true
+  | p :: ps => sane p && saneL ps
+end
+
+mutual
+theorem sym_complete (W : World) (hv : Visible W) (p : Pat) (t : Tree) (σ : State) (r : Tree × State)
+    (hs : sane p = true) (h : matchP W p t σ = some r) :
+    evalSym (idxOf W) (collectSymbols p false) = true := by
+  cases p with
+  | any => simp [collectSymbols, evalSym]
+  | nilp => simp [collectSymbols, evalSym]
+  | str s => simp [collectSymbols, evalSym]
+  | bindAny n => simp [collectSymbols, evalSym]
+  | not q => simp [collectSymbols, evalSym]
+  | lnil => simp [collectSymbols, evalSym]
+  | bind n q =>
+    obtain ⟨r', hm⟩ := matchP_bind_some W n q t σ r h
+    simp only [sane] at hs
+    simpa [collectSymbols] using sym_complete W hv q t σ r' hs hm
+  | or qs =>
+    simp only [matchP] at h
+    simp only [sane] at hs
+    obtain ⟨c, hc, he⟩ := sym_complete_or W hv qs t σ r hs h
+    simp only [collectSymbols]
+    exact orComb _ _ [] (Or.inr ⟨c, hc, he⟩)
+  | lcons a b =>
+    simp only [sane, Bool.and_eq_true, Bool.not_eq_true'] at hs
+    obtain ⟨x, xs, r1, r2, _, h1, h2⟩ := matchP_lcons_some W a b t σ r hs.1.1 h
+    have ea := sym_complete W hv a x σ r1 hs.1.2 h1
+    have eb := sym_complete W hv b (.list xs) r1.2 r2 hs.2 h2
+    simp only [collectSymbols]
+    have := andComb (idxOf W) [collectSymbols a false, collectSymbols b false] [] (by simp)
+      (by intro c hc; simp at hc; rcases hc with hc | hc <;> rw [hc] <;> assumption)
+    simpa [List.foldl] using this
+  | symbol nm =>
+    obtain ⟨o, _, n, hn, r', hm⟩ := matchP_symbol_some W nm t σ r h
+    simp only [sane] at hs
+    simpa [collectSymbols] using
+      sym_complete_name W hv nm n σ r' (goodName_of_visible W hv o n hn) hm
+  | builtin nm =>
+    obtain ⟨o, name, r', _, hm⟩ := matchP_builtin_some W nm t σ r h
+    simp only [sane] at hs
+    have e := sym_complete W hv nm name σ r' hs hm
+    have := andComb (idxOf W) [collectSymbols nm false] [] (by simp) (by simpa using e)
+    simpa [collectSymbols, List.foldl] using this
+  | object nm =>
+    obtain ⟨o, name, r', _, hm⟩ := matchP_object_some W nm t σ r h
+    simp only [sane] at hs
+    have e := sym_complete W hv nm name σ r' hs hm
+    have := andComb (idxOf W) [collectSymbols nm false] [] (by simp) (by simpa using e)
+    simpa [collectSymbols, List.foldl] using this
+  | intLit v =>
+    obtain ⟨c, r', hm⟩ := matchP_intLit_some W v t σ r h
+    simp only [sane] at hs
+    have e := sym_complete W hv v (.str c) σ r' hs hm
+    have := andComb (idxOf W) [collectSymbols v false] [] (by simp) (by simpa using e)
+    simpa [collectSymbols, List.foldl] using this
+  | tce v =>
+    obtain ⟨c, r', hm⟩ := matchP_tce_some W v t σ r h
+    simp only [sane] at hs
+    have e := sym_complete W hv v (.str c) σ r' hs hm
+    have := andComb (idxOf W) [collectSymbols v false] [] (by simp) (by simpa using e)
+    simpa [collectSymbols, List.foldl] using this
+  | node name fs =>
+    obtain ⟨o, ts, σ', _, hm⟩ := matchP_node_some W name fs t σ r h
+    simp only [sane] at hs
+    have e := sym_complete_fields W hv fs ts σ σ' hs hm
+    simp only [collectSymbols]
+    exact andComb (idxOf W) _ [] (by simp) e
+/-- the name position of a Symbol: the pattern is matched against the object's name -/
+theorem sym_complete_name (W : World) (hv : Visible W) (q : Pat) (n : String) (σ : State)
+    (r : Tree × State) (hg : goodName W n) (h : matchP W q (.str n) σ = some r) :
+    evalSym (idxOf W) (collectSymbols q true) = true := by
+  cases q with
+  | any => simp [collectSymbols, evalSym]
+  | nilp => simp [collectSymbols, evalSym]
+  | str s =>
+    simp only [matchP, strip_str] at h
+    by_cases hsn : s = n
+    · subst hsn; unfold goodName at hg; simpa [collectSymbols] using hg
+    · simp [hsn] at h
+  | bindAny m => simp [collectSymbols, evalSym]
+  | not q => simp [collectSymbols, evalSym]
+  | lnil => simp [collectSymbols, evalSym]
+  | bind m q =>
+    obtain ⟨r', hm⟩ := matchP_bind_some W m q _ σ r h
+    simpa [collectSymbols] using sym_complete_name W hv q n σ r' hg hm
+  | or qs =>
+    simp only [matchP] at h
+    obtain ⟨c, hc, he⟩ := sym_complete_name_or W hv qs n σ r hg h
+    simp only [collectSymbols]
+    exact orComb _ _ [] (Or.inr ⟨c, hc, he⟩)
+  | lcons a b => simp [matchP] at h
+  | symbol nm =>
+    obtain ⟨o, ho, _⟩ := matchP_symbol_some W nm _ σ r h
+    simp [symObj] at ho
+  | builtin nm => simp [matchP] at h
+  | object nm => simp [matchP] at h
+  | intLit v => simp [matchP] at h
+  | tce v => simp [matchP] at h
+  | node name fs =>
+    obtain ⟨o, ts, σ', hp, _⟩ := matchP_node_some W name fs _ σ r h
+    simp at hp
+theorem sym_complete_or (W : World) (hv : Visible W) (qs : List Pat) (t : Tree) (σ : State)
+    (r : Tree × State) (hs : saneL qs = true) (h : matchOr W qs t σ = some r) :
+    ∃ c ∈ collectSymbolsL qs false, evalSym (idxOf W) c = true := by
+  cases qs with
+  | nil => simp [matchOr] at h
+  | cons q qs =>
+    simp only [saneL, Bool.and_eq_true] at hs
+    simp only [matchOr] at h
+    cases hm : matchP W q t σ with
+    | some r' =>
+      exact ⟨_, by simp [collectSymbolsL], sym_complete W hv q t σ r' hs.1 hm⟩
+    | none =>
+      rw [hm] at h
+      simp only at h
+      obtain ⟨c, hc, he⟩ := sym_complete_or W hv qs t σ r hs.2 h
+      exact ⟨c, by simp [collectSymbolsL, hc], he⟩
+theorem sym_complete_name_or (W : World) (hv : Visible W) (qs : List Pat) (n : String) (σ : State)
+    (r : Tree × State) (hg : goodName W n) (h : matchOr W qs (.str n) σ = some r) :
+    ∃ c ∈ collectSymbolsL qs true, evalSym (idxOf W) c = true := by
+  cases qs with
+  | nil => simp [matchOr] at h
+  | cons q qs =>
+    simp only [matchOr] at h
+    cases hm : matchP W q (.str n) σ with
+    | some r' =>
+      exact ⟨_, by simp [collectSymbolsL], sym_complete_name W hv q n σ r' hg hm⟩
+    | none =>
+      rw [hm] at h
+      simp only at h
+      obtain ⟨c, hc, he⟩ := sym_complete_name_or W hv qs n σ r hg h
+      exact ⟨c, by simp [collectSymbolsL, hc], he⟩
+theorem sym_complete_fields (W : World) (hv : Visible W) (fs : List Pat) (ts : List Tree)
+    (σ σ' : State) (hs : saneL fs = true) (h : matchFields W fs ts σ = some σ') :
+    ∀ c ∈ collectSymbolsL fs false, evalSym (idxOf W) c = true := by
+  cases fs with
+  | nil => simp [collectSymbolsL]
+  | cons p ps =>
+    simp only [saneL, Bool.and_eq_true] at hs
+    match ts, h with
+    | [], h => simp [matchFields] at h
+    | t :: ts, h =>
+      simp only [matchFields] at h
+      cases hm : matchP W p t σ with
+      | none => rw [hm] at h; simp at h
+      | some r' =>
+        rw [hm] at h
+        simp only at h
+        have e1 := sym_complete W hv p t σ r' hs.1 hm
+        have e2 := sym_complete_fields W hv ps ts r'.2 σ' hs.2 h
+        intro c hc
+        simp only [collectSymbolsL, List.mem_cons] at hc
+        rcases hc with hc | hc
+        · rw [hc]; exact e1
+        · exact e2 c hc
+end
+
+/-! ## root call symbols -/
+
+theorem strsOf_mem (W : World) : ∀ (ps : List Pat) (ns : List String), strsOf ps = some ns →
+    ∀ n σ r, matchOr W ps (.str n) σ = some r → n ∈ ns
+  | [], _, _, n, σ, r, h => by simp [matchOr] at h
+  | .str s :: rest, ns, hs, n, σ, r, h => by
+    simp only [strsOf] at hs
+    cases hr : strsOf rest with
+    | none => rw [hr] at hs; simp at hs
+    | some ns' =>
+      rw [hr] at hs
+      simp at hs
+      subst hs
+      simp only [matchOr, matchP, strip_str] at h
+      by_cases hsn : s = n
+      · simp [hsn]
+      · simp only [hsn, if_false] at h
+        exact List.mem_cons_of_mem _ (strsOf_mem W rest ns' hr n σ r h)
+  | .any :: _, _, hs, _, _, _, _ => by simp [strsOf] at hs
+  | .nilp :: _, _, hs, _, _, _, _ => by simp [strsOf] at hs
+  | .bindAny _ :: _, _, hs, _, _, _, _ => by simp [strsOf] at hs
+  | .bind _ _ :: _, _, hs, _, _, _, _ => by simp [strsOf] at hs
+  | .or _ :: _, _, hs, _, _, _, _ => by simp [strsOf] at hs
+  | .not _ :: _, _, hs, _, _, _, _ => by simp [strsOf] at hs
+  | .lnil :: _, _, hs, _, _, _, _ => by simp [strsOf] at hs
+  | .lcons _ _ :: _, _, hs, _, _, _, _ => by simp [strsOf] at hs
+  | .symbol _ :: _, _, hs, _, _, _, _ => by simp [strsOf] at hs
+  | .builtin _ :: _, _, hs, _, _, _, _ => by simp [strsOf] at hs
+  | .object _ :: _, _, hs, _, _, _, _ => by simp [strsOf] at hs
+  | .intLit _ :: _, _, hs, _, _, _, _ => by simp [strsOf] at hs
+  | .tce _ :: _, _, hs, _, _, _, _ => by simp [strsOf] at hs
+  | .node _ _ :: _, _, hs, _, _, _, _ => by simp [strsOf] at hs
+
+theorem symNames_mem (W : World) : ∀ (nm : Pat) (ns : List String), symNames nm = some ns →
+    ∀ n σ r, matchP W nm (.str n) σ = some r → n ∈ ns
+  | .str s, ns, hs, n, σ, r, h => by
+    simp only [symNames] at hs
+    simp at hs
+    subst hs
+    simp only [matchP, strip_str] at h
+    by_cases hsn : s = n
+    · simp [hsn]
+    · simp [hsn] at h
+  | .or ps, ns, hs, n, σ, r, h => by
+    simp only [symNames] at hs
+    simp only [matchP] at h
+    exact strsOf_mem W ps ns hs n σ r h
+  | .bind m q, ns, hs, n, σ, r, h => by
+    simp only [symNames] at hs
+    obtain ⟨r', hm⟩ := matchP_bind_some W m q _ σ r h
+    exact symNames_mem W q ns hs n σ r' hm
+  | .any, _, hs, _, _, _, _ => by simp [symNames] at hs
+  | .nilp, _, hs, _, _, _, _ => by simp [symNames] at hs
+  | .bindAny _, _, hs, _, _, _, _ => by simp [symNames] at hs
+  | .not _, _, hs, _, _, _, _ => by simp [symNames] at hs
+  | .lnil, _, hs, _, _, _, _ => by simp [symNames] at hs
+  | .lcons _ _, _, hs, _, _, _, _ => by simp [symNames] at hs
+  | .symbol _, _, hs, _, _, _, _ => by simp [symNames] at hs
+  | .builtin _, _, hs, _, _, _, _ => by simp [symNames] at hs
+  | .object _, _, hs, _, _, _, _ => by simp [symNames] at hs
+  | .intLit _, _, hs, _, _, _, _ => by simp [symNames] at hs
+  | .tce _, _, hs, _, _, _, _ => by simp [symNames] at hs
+  | .node _ _, _, hs, _, _, _, _ => by simp [symNames] at hs
+
+/-- what a match of a root-function pattern against `t` tells: `t` is (a parenthesised /
+instantiated) identifier or selector of an object one of whose names is listed -/
+def FunHit (W : World) (t : Tree) (ns : List String) : Prop :=
+  ∃ ob n, symObj (peel t) = some ob ∧ n ∈ W.names ob ∧ n ∈ ns
+
+theorem rootOrNames_mem (W : World) : ∀ (ps : List Pat) (ns : List String), rootOrNames ps = some ns →
+    ∀ t σ r, matchOr W ps t σ = some r → FunHit W t ns
+  | [], _, _, t, σ, r, h => by simp [matchOr] at h
+  | .symbol nm :: rest, ns, hs, t, σ, r, h => by
+    simp only [rootOrNames] at hs
+    cases ha : symNames nm with
+    | none => rw [ha] at hs; simp at hs
+    | some a =>
+      cases hb : rootOrNames rest with
+      | none => rw [ha, hb] at hs; simp at hs
+      | some b =>
+        rw [ha, hb] at hs
+        simp at hs
+        subst hs
+        simp only [matchOr] at h
+        cases hm : matchP W (.symbol nm) t σ with
+        | some r' =>
+          obtain ⟨ob, hob, n, hn, r'', hmn⟩ := matchP_symbol_some W nm t σ r' hm
+          exact ⟨ob, n, hob, hn, List.mem_append_left _ (symNames_mem W nm a ha n σ r'' hmn)⟩
+        | none =>
+          rw [hm] at h
+          simp only at h
+          obtain ⟨ob, n, hob, hn, hmem⟩ := rootOrNames_mem W rest b hb t σ r h
+          exact ⟨ob, n, hob, hn, List.mem_append_right _ hmem⟩
+  | .any :: _, _, hs, _, _, _, _ => by simp [rootOrNames] at hs
+  | .nilp :: _, _, hs, _, _, _, _ => by simp [rootOrNames] at hs
+  | .str _ :: _, _, hs, _, _, _, _ => by simp [rootOrNames] at hs
+  | .bindAny _ :: _, _, hs, _, _, _, _ => by simp [rootOrNames] at hs
+  | .bind _ _ :: _, _, hs, _, _, _, _ => by simp [rootOrNames] at hs
+  | .or _ :: _, _, hs, _, _, _, _ => by simp [rootOrNames] at hs
+  | .not _ :: _, _, hs, _, _, _, _ => by simp [rootOrNames] at hs
+  | .lnil :: _, _, hs, _, _, _, _ => by simp [rootOrNames] at hs
+  | .lcons _ _ :: _, _, hs, _, _, _, _ => by simp [rootOrNames] at hs
+  | .builtin _ :: _, _, hs, _, _, _, _ => by simp [rootOrNames] at hs
+  | .object _ :: _, _, hs, _, _, _, _ => by simp [rootOrNames] at hs
+  | .intLit _ :: _, _, hs, _, _, _, _ => by simp [rootOrNames] at hs
+  | .tce _ :: _, _, hs, _, _, _, _ => by simp [rootOrNames] at hs
+  | .node _ _ :: _, _, hs, _, _, _, _ => by simp [rootOrNames] at hs
+
+theorem rootFunNames_mem (W : World) : ∀ (f : Pat) (ns : List String), rootFunNames f = some ns →
+    ∀ t σ r, matchP W f t σ = some r → FunHit W t ns
+  | .bind m q, ns, hs, t, σ, r, h => by
+    simp only [rootFunNames] at hs
+    obtain ⟨r', hm⟩ := matchP_bind_some W m q t σ r h
+    exact rootFunNames_mem W q ns hs t σ r' hm
+  | .symbol nm, ns, hs, t, σ, r, h => by
+    simp only [rootFunNames] at hs
+    obtain ⟨ob, hob, n, hn, r', hmn⟩ := matchP_symbol_some W nm t σ r h
+    exact ⟨ob, n, hob, hn, symNames_mem W nm ns hs n σ r' hmn⟩
+  | .or ps, ns, hs, t, σ, r, h => by
+    simp only [rootFunNames] at hs
+    simp only [matchP] at h
+    exact rootOrNames_mem W ps ns hs t σ r h
+  | .any, _, hs, _, _, _, _ => by simp [rootFunNames] at hs
+  | .nilp, _, hs, _, _, _, _ => by simp [rootFunNames] at hs
+  | .str _, _, hs, _, _, _, _ => by simp [rootFunNames] at hs
+  | .bindAny _, _, hs, _, _, _, _ => by simp [rootFunNames] at hs
+  | .not _, _, hs, _, _, _, _ => by simp [rootFunNames] at hs
+  | .lnil, _, hs, _, _, _, _ => by simp [rootFunNames] at hs
+  | .lcons _ _, _, hs, _, _, _, _ => by simp [rootFunNames] at hs
+  | .builtin _, _, hs, _, _, _, _ => by simp [rootFunNames] at hs
+  | .object _, _, hs, _, _, _, _ => by simp [rootFunNames] at hs
+  | .intLit _, _, hs, _, _, _, _ => by simp [rootFunNames] at hs
+  | .tce _, _, hs, _, _, _, _ => by simp [rootFunNames] at hs
+  | .node _ _, _, hs, _, _, _, _ => by simp [rootFunNames] at hs
+
+/-- a pattern with root call names is a CallExpr pattern with two operands -/
+theorem rootCallNames_shape (p : Pat) (ns : List String) (h : rootCallNames p = some ns) :
+    ∃ f a, p = .node "CallExpr" [f, a] ∧ rootFunNames f = some ns := by
+  cases p with
+  | node name fs =>
+    match fs, h with
+    | [f, a], h =>
+      simp only [rootCallNames] at h
+      by_cases hn : name = "CallExpr"
+      · rw [if_pos hn] at h; exact ⟨f, a, by rw [hn], h⟩
+      · rw [if_neg hn] at h; simp at h
+    | [], h => simp [rootCallNames] at h
+    | [_], h => simp [rootCallNames] at h
+    | _ :: _ :: _ :: _, h => simp [rootCallNames] at h
+  | any => simp [rootCallNames] at h
+  | nilp => simp [rootCallNames] at h
+  | str s => simp [rootCallNames] at h
+  | bindAny n => simp [rootCallNames] at h
+  | bind n q => simp [rootCallNames] at h
+  | or qs => simp [rootCallNames] at h
+  | not q => simp [rootCallNames] at h
+  | lnil => simp [rootCallNames] at h
+  | lcons a b => simp [rootCallNames] at h
+  | symbol nm => simp [rootCallNames] at h
+  | builtin nm => simp [rootCallNames] at h
+  | object nm => simp [rootCallNames] at h
+  | intLit v => simp [rootCallNames] at h
+  | tce v => simp [rootCallNames] at h
+
+theorem rootcalls_aux (W : World) (p : Pat) (ns : List String) (t : Tree) (σ : State)
+    (r : Tree × State) (hn : rootCallNames p = some ns) (h : matchP W p t σ = some r) :
+    ∃ o f a, peel t = .node "CallExpr" o [f, a] ∧ FunHit W f ns := by
+  obtain ⟨pf, pa, hp, hf⟩ := rootCallNames_shape p ns hn
+  subst hp
+  obtain ⟨o, ts, σ', hpeel, hm⟩ := matchP_node_some W _ _ t σ r h
+  match ts, hm with
+  | [], hm => simp [matchFields] at hm
+  | [_], hm =>
+    simp only [matchFields] at hm
+    split at hm
+    · simp at hm
+    · simp at hm
+  | f :: a :: rest, hm =>
+    simp only [matchFields] at hm
+    cases hmf : matchP W pf f σ with
+    | none => rw [hmf] at hm; simp at hm
+    | some r1 =>
+      rw [hmf] at hm
+      simp only at hm
+      cases hma : matchP W pa a r1.2 with
+      | none => rw [hma] at hm; simp at hm
+      | some r2 =>
+        rw [hma] at hm
+        simp only at hm
+        match rest, hm with
+        | [], _ => exact ⟨o, f, a, hpeel, rootFunNames_mem W pf ns hf f σ r1 hmf⟩
+        | _ :: _, hm => simp [matchFields] at hm
+
+/-- typeutil.Callee agrees with Symbol.Match on the callee of a call, for functions -/
+theorem calleeObj_of_symObj (W : World) (o : Option Nat) (f a : Tree) (ob : Nat)
+    (h : symObj (peel f) = some ob) (hty : W.isType ob = false) (hfn : W.isFunc ob = true) :
+    calleeObj W (.node "CallExpr" o [f, a]) = some ob := by
+  cases hp : peel f with
+  | node k o' fs =>
+    rw [hp] at h
+    simp only [calleeObj, hp]
+    simp only [symObj] at h
+    by_cases h1 : k = "Ident" ∨ k = "SelectorExpr"
+    · rw [if_pos h1] at h
+      simp only [identObj, if_pos h1] at h
+      simp [h1, h, hty]
+    · rw [if_neg h1] at h
+      by_cases h2 : k = "IndexExpr" ∨ k = "IndexListExpr"
+      · rw [if_pos h2] at h
+        match fs, h with
+        | [x, _], h =>
+          simp only at h
+          simp [h1, h2, h, hfn]
+        | [], h => simp at h
+        | [_], h => simp at h
+        | _ :: _ :: _ :: _, h => simp at h
+      · rw [if_neg h2] at h; simp at h
+  | paren k x => rw [hp] at h; simp [symObj] at h
+  | block fl es => rw [hp] at h; simp [symObj] at h
+  | list es => rw [hp] at h; simp [symObj] at h
+  | str s => rw [hp] at h; simp [symObj] at h
+  | nil => rw [hp] at h; simp [symObj] at h
+
+/-! ## the nodes of a package -/
+
+mutual
+theorem subtrees_trans : ∀ (u t : Tree), t ∈ subtrees u → ∀ s, s ∈ subtrees t → s ∈ subtrees u
+  | .node k o fs, t, ht, s, hs => by
+    simp only [subtrees, List.mem_cons] at ht ⊢
+    rcases ht with ht | ht
+    · subst ht; simpa [subtrees] using hs
+    · right; exact subtreesL_trans fs t ht s hs
+  | .paren k x, t, ht, s, hs => by
+    simp only [subtrees, List.mem_cons] at ht ⊢
+    rcases ht with ht | ht
+    · subst ht; simpa [subtrees] using hs
+    · right; exact subtrees_trans x t ht s hs
+  | .block fl es, t, ht, s, hs => by
+    simp only [subtrees, List.mem_cons] at ht ⊢
+    rcases ht with ht | ht
+    · subst ht; simpa [subtrees] using hs
+    · right; exact subtreesL_trans es t ht s hs
+  | .list es, t, ht, s, hs => by
+    simp only [subtrees] at ht ⊢
+    exact subtreesL_trans es t ht s hs
+  | .str _, t, ht, _, _ => by simp [subtrees] at ht
+  | .nil, t, ht, _, _ => by simp [subtrees] at ht
+theorem subtreesL_trans : ∀ (us : List Tree) (t : Tree), t ∈ subtreesL us → ∀ s, s ∈ subtrees t →
+    s ∈ subtreesL us
+  | [], t, ht, _, _ => by simp [subtreesL] at ht
+  | u :: us, t, ht, s, hs => by
+    simp only [subtreesL, List.mem_append] at ht ⊢
+    rcases ht with ht | ht
+    · left; exact subtrees_trans u t ht s hs
+    · right; exact subtreesL_trans us t ht s hs
+end
+
+mutual
+theorem isNode_of_mem : ∀ (u t : Tree), t ∈ subtrees u → isNode t = true
+  | .node k o fs, t, ht => by
+    simp only [subtrees, List.mem_cons] at ht
+    rcases ht with ht | ht
+    · subst ht; simp [isNode]
+    · exact isNode_of_memL fs t ht
+  | .paren k x, t, ht => by
+    simp only [subtrees, List.mem_cons] at ht
+    rcases ht with ht | ht
+    · subst ht; simp [isNode]
+    · exact isNode_of_mem x t ht
+  | .block fl es, t, ht => by
+    simp only [subtrees, List.mem_cons] at ht
+    rcases ht with ht | ht
+    · subst ht; simp [isNode]
+    · exact isNode_of_memL es t ht
+  | .list es, t, ht => by
+    simp only [subtrees] at ht
+    exact isNode_of_memL es t ht
+  | .str _, t, ht => by simp [subtrees] at ht
+  | .nil, t, ht => by simp [subtrees] at ht
+theorem isNode_of_memL : ∀ (us : List Tree) (t : Tree), t ∈ subtreesL us → isNode t = true
+  | [], t, ht => by simp [subtreesL] at ht
+  | u :: us, t, ht => by
+    simp only [subtreesL, List.mem_append] at ht
+    rcases ht with ht | ht
+    · exact isNode_of_mem u t ht
+    · exact isNode_of_memL us t ht
+end
+
+theorem self_mem_subtrees : ∀ t : Tree, isNode t = true → t ∈ subtrees t
+  | .node k o fs, _ => by simp [subtrees]
+  | .paren k x, _ => by simp [subtrees]
+  | .block fl es, _ => by simp [subtrees]
+  | .list es, h => by simp [isNode] at h
+  | .str s, h => by simp [isNode] at h
+  | .nil, h => by simp [isNode] at h
+
+/-- the normalised node is a node of the same file -/
+theorem norm_mem (W : World) (p : Pat) (σ : State) :
+    ∀ t : Tree, isNode t = true → WFc t → norm W p σ t ∈ subtrees t
+  | .node k o fs, _, _ => by rw [norm_node]; simp [subtrees]
+  | .paren k x, _, hw => by
+    rw [norm_paren]
+    simp only [subtrees, List.mem_cons]
+    right
+    exact norm_mem W p σ x hw.1 hw.2
+  | .block fl [], _, _ => by rw [norm_block_not_single _ _ _ _ _ (by simp)]; simp [subtrees]
+  | .block fl (a :: b :: es), _, _ => by
+    rw [norm_block_not_single _ _ _ _ _ (by simp)]; simp [subtrees]
+  | .block fl [y], _, hw => by
+    simp only [WFc] at hw
+    by_cases heq : matchP W p y σ = matchP W p (.block fl [y]) σ
+    · rw [norm_block_single_eq _ _ _ _ _ heq]
+      simp only [subtrees, subtreesL, List.mem_cons, List.append_nil]
+      right
+      exact norm_mem W p σ y hw.1 hw.2
+    · rw [norm_block_single_ne _ _ _ _ _ heq]; simp [subtrees]
+  | .list es, h, _ => by simp [isNode] at h
+  | .str s, h, _ => by simp [isNode] at h
+  | .nil, h, _ => by simp [isNode] at h
+
+/-- the normalised node is a plain node, or a block the pattern tells from its only element -/
+theorem norm_shape (W : World) (p : Pat) (σ : State) :
+    ∀ t : Tree, isNode t = true → WFc t →
+      (∃ k o fs, norm W p σ t = .node k o fs) ∨
+      (∃ fl es, norm W p σ t = .block fl es ∧
+        (es.length ≠ 1 ∨ ∃ y, es = [y] ∧ matchP W p y σ ≠ matchP W p (.block fl [y]) σ))
+  | .node k o fs, _, _ => by left; exact ⟨k, o, fs, norm_node ..⟩
+  | .paren k x, _, hw => by
+    rw [norm_paren]
+    exact norm_shape W p σ x hw.1 hw.2
+  | .block fl [], _, _ => by
+    right; exact ⟨fl, [], norm_block_not_single _ _ _ _ _ (by simp), Or.inl (by simp)⟩
+  | .block fl (a :: b :: es), _, _ => by
+    right; exact ⟨fl, _, norm_block_not_single _ _ _ _ _ (by simp), Or.inl (by simp)⟩
+  | .block fl [y], _, hw => by
+    simp only [WFc] at hw
+    by_cases heq : matchP W p y σ = matchP W p (.block fl [y]) σ
+    · rw [norm_block_single_eq _ _ _ _ _ heq]
+      exact norm_shape W p σ y hw.1 hw.2
+    · right; exact ⟨fl, [y], norm_block_single_ne _ _ _ _ _ heq, Or.inr ⟨y, rfl, heq⟩⟩
+  | .list es, h, _ => by simp [isNode] at h
+  | .str s, h, _ => by simp [isNode] at h
+  | .nil, h, _ => by simp [isNode] at h
+
 end Verif.C08
